@@ -1023,6 +1023,14 @@ func (bc *BlockChain) WriteBlockWithState(block *types.Block, receipts []*types.
 	if reorg {
 		// Reorganise the chain if the parent is not the head block
 		if block.ParentHash() != currentBlock.Hash() {
+			// reorg re-points the canonical numbers and the head markers
+			// block by block up to and including this block: its header and
+			// body have to be on disk before any marker names it, or a crash
+			// in between leaves a head that cannot be loaded
+			if err := batch.Write(); err != nil {
+				return NonStatTy, err
+			}
+			batch.Reset()
 			if err := bc.reorg(currentBlock, block); err != nil {
 				return NonStatTy, err
 			}
